@@ -5,6 +5,7 @@ pub mod vstdx {
 #[allow(unused_imports)] use std::borrow::{Cow, ToOwned};
 #[allow(unused_imports)] use core::ops::Deref;
 #[allow(unused_imports)] use std::collections::{BTreeMap, BTreeSet};
+#[allow(unused_imports)] use vstd::std_specs::iter::IteratorSpec;
 verus! {
 
 // ---- Cow: `Deref` has no specification in vstd -------------------------------------------------
@@ -20,6 +21,22 @@ pub broadcast axiom fn ax_cow_owned<'a, B: Clone>(y: B)
     ensures #[trigger] *cow_ref(&Cow::<'a, B>::Owned(y)) == y;
 
 pub broadcast group group_cow { ax_cow_borrowed, ax_cow_owned }
+
+
+// ---- iterator adaptors (rule E7, structural form) ----------------------------------------------
+// The call `RECV.map(CLOSURE).collect()` is re-associated to `map_collect_vec(RECV, CLOSURE)`; the body below is
+// the original method chain, the `ensures` is the documented behaviour of Iterator::map + FromIterator for Vec.
+// (vstd specifies map/collect, but its broadcast lemma does not fire when the item type is an associated-type
+// projection such as `Scalar<C>` -- measured.)  The closure itself stays in the verified caller.
+#[verifier::external_body]
+pub fn map_collect_vec<I: Iterator, B, F: FnMut(I::Item) -> B>(it: I, f: F) -> (r: Vec<B>)
+    requires
+        it.obeys_prophetic_iter_laws(),
+        forall|k: int| 0 <= k < it.remaining().len() ==> call_requires(f, (#[trigger] it.remaining()[k],)),
+    ensures
+        r@.len() == it.remaining().len(),
+        forall|k: int| 0 <= k < it.remaining().len() ==> call_ensures(f, (it.remaining()[k],), #[trigger] r@[k]),
+{ it.map(f).collect() }
 
 } // verus!
 }
